@@ -187,3 +187,32 @@ Definition two_msgs : list msg := [custom_msg; mkMsg [109;121;58;99] [1;2] [24;4
 Lemma nonvacuous_history :
   map o_events (spec_history HBackendPlay env0 two_msgs) = [[EPM [109;121;58;99] [222;173]]; [EPM [109;121;58;99] [1;2]]].
 Proof. vm_compute. reflexivity. Qed.
+
+(* ---------- register histories ---------- *)
+Lemma register_event_history : forall known e ms,
+  Forall2 (fun m eo => classify (m_ch m) = KRegister ->
+             (forwarded m (snd eo) = true ->
+                exists n, o_events (snd eo) = [ERegister (parse_channels (e_ver13 e) n (m_data m))]) /\
+             (forwarded m (snd eo) = false -> o_events (snd eo) = []))
+          ms (reg_history true true known e ms).
+Proof.
+  intros known e ms. revert known. induction ms as [|m ms IH]; intro known; cbn [reg_history]; constructor; [|apply IH].
+  intro K. cbn [snd].
+  destruct (register_event_iff_forwarded (with_existing e (N.of_nat (length known))) m K) as [A B].
+  split; [|exact B]. intro F. exists (N.of_nat (length known)). exact (A F).
+Qed.
+
+(* the observable of a step does not depend on WHICH channels are known, only on how many (cap test) *)
+Lemma step_depends_on_count_only : forall (k1 k2 : list bytes) e m,
+  length k1 = length k2 ->
+  handle true true HClientPlay (with_existing e (N.of_nat (length k1))) m =
+  handle true true HClientPlay (with_existing e (N.of_nat (length k2))) m.
+Proof. intros k1 k2 e m H. now rewrite H. Qed.
+
+Definition reg_env : env := mkEnv true 0 (Some srvA) None true false SDefault false.
+Definition reg_ab : msg := mkMsg s_mc_register [97;58;98] [].
+Lemma nonvacuous_register_history :
+  map (fun eo => o_events (snd eo)) (reg_history true true [] reg_env [reg_ab; reg_ab]) =
+    [[ERegister [[97;58;98]]]; [ERegister [[97;58;98]]]] /\
+  map (fun eo => e_existing (fst eo)) (reg_history true true [] reg_env [reg_ab; reg_ab]) = [0; 1].
+Proof. vm_compute. auto. Qed.
